@@ -360,7 +360,7 @@ func (u *Unit) evalIdent(env *SpecEnv, name string) SV {
 		return SV{V: nil, Typ: types.Typ[types.UntypedNil]}
 	}
 	if c, ok := u.lookupName(env, name); ok {
-		if c.promoted != nil {
+		if _, inCells := env.cells[c]; !inCells && env.st.promo[c] {
 			p := u.promotedPtr(&Ptr{kind: pCell, cell: c, rtyp: c.typ, typ: c.typ})
 			return SV{V: u.loadView(env.st, env.hv, env.cells, p), Typ: c.typ}
 		}
